@@ -112,4 +112,12 @@ CHECKS = {
         assumptions=["lossy pictures are not exact, so frames are aligned by time, not by picture equality"],
         tests=[dict(name="TestC18", quick=3200, thorough=40000)],
     ),
+    "C14": dict(
+        level="exploration",
+        rule="rapid draws Muxer call sequences (1-14 ops): AddFrame with real VP8/VP8L bitstreams from a pool of 35 (lossy, lossless, lossy with compressed and raw ALPH prefix, VP8L with alpha bit; odd and even payload lengths) and FrameOptions (nil; offsets even/odd; durations incl. 0, >2^24-1 and negative = documented clamping; blend; dispose), SetFrameDisposeMode/SetFrameDuration on valid and invalid indices, SetCanvasSize (incl. 0, clamped values), SetLoopCount (clamped), SetBackgroundColor, SetICCProfile/SetEXIF/SetXMP/AddChunk with nil/empty/odd/even/chunk-like blobs; then Assemble. "
+             "Oracle: a model of the muxer state predicts acceptance and structure. Accepted: riffwalk validates the file; mux.Demuxer AND container.Parser return the same bitstreams and ALPH payloads byte for byte, offsets rounded down to even, clamped durations, blend/dispose, loop count, background colour, canvas, metadata; GetFeatures agrees; stills decode to the same pixels as their bitstream alone. Rejected: an error, and nothing that parses as a complete file was written; consistent states must not be rejected, frames outside the canvas must be. "
+             "Non-trivial: alpha-prefixed frame, >=2 frames or metadata; distinct = (animated, frame count, setters used, payload parities, fits).",
+        assumptions=["offsets non-negative; canvas area kept below the package's 2^30-pixel reader cap; for stills with an explicit canvas different from the picture the strict still-canvas rule of riffwalk is not applied"],
+        tests=[dict(name="TestC14", quick=6400, thorough=150000)],
+    ),
 }
